@@ -1,13 +1,17 @@
 """Behaviour of `render()` by constant propagation / abstract interpretation over scenarios (C01 S1-S3 S6, C06 W5, C07 F3 F4).
 
 `render()` is interpreted end to end — its own vertex stage, triangle assembly, the real clipper, the optional depth sort, the
-per-vertex perspective division and viewport transform, the cull decision and the statistics — on one fixed scene with CONCRETE
+per-vertex perspective division and viewport transform, the cull decision and the statistics — on fixed scenes with CONCRETE
 clip-space positions and SYMBOLIC attributes a0..a(n-1), once per (face_cull, depth_sort) setting. Uninterpreted: the vertex shader
 (returns the scene's position and attribute for vertex i), `tri_fill` (records the triangle it is handed and calls its scanline
 callback twice) and `Target::rasterize` (records the call, returns Throughput{i: 5, o: 3}).
 
-The scene: five triangles over twelve vertices with distinct summed depths, both windings, one vertex shared between two triangles,
-one triangle wholly outside the frustum and one crossing the x = w plane. What is read off afterwards: which triangles reached
+The main scene: nine triangles over twenty-four vertices with distinct summed depths, both windings and all vertex rotations, one vertex
+shared between triangles, one triangle wholly outside the frustum, one crossing the x = w plane, one with a vertex behind the eye, one of
+sub-pixel size. Three small side scenes (two settings each) cover the shapes of input the main scene cannot: NOTHING survives clipping
+(triangles outside one plane, and one that no single plane rejects but that clips away to nothing), NO input at all, and a batch in which
+such a clipped-away triangle is FOLLOWED by partly visible ones (scratch state carried from one triangle to the next shows there).
+What is read off afterwards: which triangles reached
 tri_fill, in which order, with which screen positions and attributes; the number of rasterize calls; the context's statistics.
 
 The specification (independent of how render() is written: helpers inlined or extracted, match / if-let / bool flags, ...):
@@ -42,6 +46,26 @@ POS = [
 TRIS = [(0, 1, 2), (3, 4, 5), (2, 6, 7), (8, 9, 10), (0, 11, 2), (13, 14, 12), (15, 17, 16), (18, 19, 20), (21, 22, 23)]
 HIDDEN = {3}
 CLIPPED = {4, 8}
+_CORNER = [(3.0, 0.0, 0.2, 1.0), (0.0, 3.0, 0.2, 1.0), (3.0, 3.0, 0.2, 1.0)]      # outside x = w resp. y = w vertex by vertex: no single plane rejects it, clipping leaves nothing
+_OUT_X = [(3.0, 0.0, 0.5, 1.0), (4.0, 0.0, 0.5, 1.0), (3.0, 1.0, 0.5, 1.0)]
+_OUT_Y = [(0.0, -3.0, 0.5, 1.0), (1.0, -4.0, 0.5, 1.0), (0.0, -5.0, 0.5, 1.0)]
+_CROSS_X = [(-0.5, -0.5, 0.30, 1.0), (1.8, 0.1, 0.4, 1.0), (0.0, 0.5, 0.30, 1.0)]
+_CROSS_Y = [(-0.4, 0.2, 0.6, 1.0), (0.4, 0.2, 0.6, 1.0), (0.0, 1.7, 0.6, 1.0)]
+_INSIDE = [(-0.2, -0.6, 0.7, 1.0), (0.3, -0.6, 0.7, 1.0), (0.0, -0.1, 0.7, 1.0)]
+_tri3 = lambda n: [(3 * k, 3 * k + 1, 3 * k + 2) for k in range(n)]      # noqa: E731
+_NONE_ONLY = [("None", "None"), ("Back", "FrontToBack")]
+SCENES = [
+    dict(name="main", POS=POS, TRIS=TRIS, HIDDEN=HIDDEN, CLIPPED=CLIPPED, settings=None),
+    dict(name="nothing visible", POS=_OUT_X + _CORNER + _OUT_Y, TRIS=_tri3(3), HIDDEN={0, 1, 2}, CLIPPED=set(), settings=_NONE_ONLY),
+    dict(name="no input", POS=[], TRIS=[], HIDDEN=set(), CLIPPED=set(), settings=_NONE_ONLY),
+    dict(name="clipped-away triangle first", POS=_CORNER + _CROSS_X + _INSIDE + _CROSS_Y, TRIS=_tri3(4), HIDDEN={0}, CLIPPED={1, 3}, settings=_NONE_ONLY),
+]
+
+
+def _use(scene):
+    """the scene the helpers below (screen, is_back, zsum, which_triangle, run) refer to"""
+    global POS, TRIS, HIDDEN, CLIPPED
+    POS, TRIS, HIDDEN, CLIPPED = scene["POS"], scene["TRIS"], scene["HIDDEN"], scene["CLIPPED"]
 # to_screen: x' = 50 x + 50, y' = -40 y + 45 (y points down on screen: the winding seen on screen is the mirror image of the NDC one)
 MPOINT = {"m00": 50.0, "m03": 50.0, "m11": -40.0, "m13": 45.0, "m22": 1.0, "m33": 1.0}
 for _r in range(4):
@@ -208,6 +232,7 @@ def run(prog, face_cull, depth_sort):
                    "$slice::<impl [T]>::sort_by_key": m_sort(True), "$slice::<impl [T]>::sort_unstable_by_key": m_sort(True),
                    "$slice::<impl [T]>::sort_by_cached_key": m_sort(True)})
     it = S.interp(prog, models=models, oracle=point_oracle)
+    it.cover = {}
     tcell, vcell = A.Frame(None), A.Frame(None)
     tcell.locals[0], vcell.locals[0] = tris, verts
     try:
@@ -219,6 +244,7 @@ def run(prog, face_cull, depth_sort):
     rec["stats"] = A.deref_all(it, ctxcell.locals[0][3][cf.index("stats")])
     rec["stat_names"] = names
     rec["trace"] = sorted(set(it.trace))
+    rec["cover"] = it.cover
     return rec
 
 
@@ -294,11 +320,58 @@ def _check(prog):
             seen.add((clause, key))
             findings.append((clause, key, msg))
     runs = 0
+    cover = {}
+    try:
+        for scene in SCENES:
+            _use(scene)
+            runs += _check_scene(prog, scene, sv, add, cover)
+    finally:
+        _use(SCENES[0])
+    prog.__dict__["_render_sem_cover"] = path_coverage(prog, cover)
+    return runs, findings
+
+
+def path_coverage(prog, cover):
+    """which blocks of render() (its closures included) and of the batch clipper no scene executed. Counted are the blocks that lie on some
+    path from the entry to a return (panic-only blocks and unwind cleanup are not paths a scene is meant to take).
+    -> [(body path, reached, total, [source positions of unreached blocks])]"""
+    out = []
+    for path, body in sorted(prog.bodies.items()):
+        if not (path == RC + "render::render" or path.startswith(RC + "render::render::{closure") or
+                (path.startswith(RC + "render::clip::") or "render::clip::Clip>::clip" in path) and path in cover):
+            continue
+        fwd = body.reachable(0, unwind=False)
+        rets = {i for i in fwd if body.blocks[i]["term"]["k"] == "Return"}
+        preds = {}
+        for i in fwd:
+            for t in body.succs(i, unwind=False):
+                preds.setdefault(t, []).append(i)
+        can_ret, stack = set(rets), list(rets)
+        while stack:
+            for p_ in preds.get(stack.pop(), []):
+                if p_ not in can_ret:
+                    can_ret.add(p_)
+                    stack.append(p_)
+        universe = fwd & can_ret
+        got = cover.get(path, set()) & universe
+        miss = sorted(universe - got)
+        out.append((path, len(got), len(universe), sorted({body.where(i, None) for i in miss})))
+    return out
+
+
+def _check_scene(prog, scene, sv, add, cover):
+    runs = 0
     for cname, cull in sv["cull"]:
         for sname, srt in sv["sort"]:
+            if scene["settings"] is not None and (cname, sname) not in scene["settings"]:
+                continue
             tag = "face_cull=%s, depth_sort=%s" % (cname, sname)
+            if scene["name"] != "main":
+                tag += ", scene: " + scene["name"]
             rec = run(prog, cull, srt)
             runs += 1
+            for p_, bs_ in rec["cover"].items():
+                cover.setdefault(p_, set()).update(bs_)
             if rec["panic"]:
                 add("pipeline", "panic", "render() panics on the reference scene (%s): %s" % (tag, rec["panic"][:100]))
                 continue
@@ -405,4 +478,4 @@ def _check(prog):
                 if got is None or {k: float(c) for k, c in got.items()} != {k: float(c) for k, c in want.items()}:
                     add("stats", key, "after render() ctx.stats.%s is %s, expected %s (%d triangle(s) reached tri_fill, %d rasterize call(s) returning {i: 5, o: 3}; %s)"
                         % (key, S.fmt_trace([("Eq", v, 0, True)])[3:-6][:80], " + ".join("%g*%s" % (c, "*".join(k) or "1") for k, c in want.items()), nfill, rec["rasterize"], tag))
-    return runs, findings
+    return runs
